@@ -1,4 +1,4 @@
-import Fcgi.Proofs.E2EScriptIndep
+import Fcgi.Proofs.E2EScriptIndepR
 import Fcgi.Props.C12Chain2
 /-!
 # C12 — a failing write in the last request of a chain, the fault in the script FROM THE START
@@ -24,8 +24,10 @@ answered, the task parked, `bad :: post` still in the script), or it is consumed
 the `k` complete segments and a byte prefix of the complete answer to `y`, the failing call was the last transport
 write, `k` or `k + 1` handler starts, the error is the one `bad` produces.
 
-Reads: the read script is the same in all runs compared here (write script only, as announced);
-`read_error_in_last_request_at_index_e2e` is NOT lifted (it needs the same development for `rd`).
+`read_error_in_last_request_at_index_e2e_whole`: the same for an erroring READ answer, with `Proofs/E2EScriptIndepR`
+(the same development for the read script: `E2E.runTask_appR`, `E2E.closedLoop_appR`): the read script
+`pre ++ .err :: post` from the start, the benign prefix leaving `i ≥ 1` read answers of `pre`.
+(The flush script plays no role: none of these runs flushes.)
 -/
 namespace Fcgi.C12E
 open Fcgi Fcgi.Req Fcgi.Str Fcgi.Async Fcgi.Run Fcgi.Spec Fcgi.E2E Fcgi.C07E Fcgi.C07U Fcgi.C12Inv Fcgi.Indep3 Fcgi.EofErr
@@ -195,5 +197,168 @@ theorem write_error_in_last_request_e2e_whole {b mc : Nat} (x : UReq) (xs : List
     rcases hcase with ⟨h1, h2, h3, h4⟩ | ⟨h1, h2, h3, h4, h5, h6, t1, t2, h7⟩
     · exact Or.inl ⟨h1, h2, h3, h4⟩
     · exact Or.inr ⟨h1, h2, h3, h4, h5, h6, _, t1, t2, h7⟩
+
+
+/-! ## The read error -/
+
+theorem setRd_self (c : Conn) : setRd c c.env.tr.rd = c := rfl
+
+/-- **the last leg** for a read script `pre' ++ .err :: post`, any poll number -/
+theorem read_error_leg {b mc : Nat} (y : UReq) {Lw : Bytes} {h : Nat} {evs : List String} {A0 : Nat} {c₁ : Conn}
+    {fuel : Nat} (n0 : Nat) (pre' : List RdAns) (post : List RdAns)
+    (hoky : y.OKu b)
+    (hw : Waiting (alignedBufsize b) mc [] Lw [y.handler] h evs A0 c₁)
+    (hpre : ∀ a ∈ pre', a ≠ RdAns.err)
+    (hf : pre'.length + c₁.env.tr.wr.length + 1 ≤ fuel) :
+    ∃ c' fin Ay, runTask fuel (feedR c₁ y.wire (pre' ++ .err :: post)) n0 none = (c', fin) ∧ y.Seg mc Ay ∧
+      ((fin = "STALL" ∧ c'.env.tr.wlog = Lw ++ Ay ∧ hsCount c'.env.tr.events = h + 1 ∧
+          ∃ rest, c'.env.tr.rd = rest ++ .err :: post) ∨
+       (fin = "RET" ∧ c'.phase = .finished ∧
+        (∃ w, c'.env.tr.wlog = Lw ++ w ∧ w <+: Ay) ∧
+        h ≤ hsCount c'.env.tr.events ∧ hsCount c'.env.tr.events ≤ h + 1 ∧
+        (∃ e inH, (e = .connectionAborted ∨ e = .transportRead) ∧
+          (inH = true → ∃ evs, c'.env.tr.events = evs ++ [handlerErrEv e])))) := by
+  have hwW : Waiting (alignedBufsize b) mc [] Lw [y.handler] h evs (pre'.length + c₁.env.tr.wr.length) (setRd c₁ pre') :=
+    ⟨hw.ph, hw.nf, hw.rem, hw.inp, hw.log, hw.logL, hw.stop,
+      ⟨hpre, hw.ben.wr, hw.ben.hold, hw.ben.em⟩, hw.sc, hw.mtx, hw.hs, hw.ev, hw.segs, hw.em, Nat.le_refl _⟩
+  have hsv := (hall_of_oku (mc := mc) y [] (fun z hz => by rw [List.mem_singleton.1 hz]; exact hoky)
+    [] (UReq.spec mc y) [] rfl).1
+  obtain ⟨c2, Ay, hrun2, hsegy, hw2⟩ := hsv [] Lw [] h evs (pre'.length + c₁.env.tr.wr.length)
+    (E2E.feed (setRd c₁ pre') y.wire) n0 fuel
+    ⟨(fun _ he => nomatch he), (fun _ hr => nomatch hr)⟩ (Or.inl ⟨_, hwW, rfl⟩) hf
+  have hX : Bad ⟨.err :: post, [], []⟩ := ⟨Or.inr ⟨post, rfl⟩, Or.inl rfl, Or.inl rfl⟩
+  have hc := feedR_ext c₁ y.wire pre' (.err :: post)
+  have hp : AllProp (E2E.feed (setRd c₁ pre') y.wire) := by
+    obtain ⟨phase, env, scripts, stop⟩ := c₁
+    have h1 := hw.ph
+    have h3 := hw.sc
+    simp only at h1 h3
+    subst h1 h3
+    exact ⟨fun s hs => by
+      have hs' : s = y.handler := by simpa [E2E.feed, setRd] using hs
+      rw [hs']; exact uhandler_prop y, trivial⟩
+  have hlog0 : (feedR c₁ y.wire (pre' ++ .err :: post)).env.tr.wlog = Lw := hw.log
+  have hhs0 : hsCount (feedR c₁ y.wire (pre' ++ .err :: post)).env.tr.events = h := hw.hs
+  rcases Indep3.runTask_dich hX fuel (E2E.feed (setRd c₁ pre') y.wire) n0 none hp with hsame | ⟨c3, h3, hhit⟩
+  · rw [hrun2] at hsame
+    exact ⟨extC ⟨.err :: post, [], []⟩ c2, "STALL", Ay, by rw [hc]; exact hsame, hsegy,
+      Or.inl ⟨rfl, hw2.log, hw2.hs, c2.env.tr.rd, rfl⟩⟩
+  · rw [hrun2] at hhit
+    simp only at hhit
+    have hrun3 : runTask fuel (feedR c₁ y.wire (pre' ++ .err :: post)) n0 none = (c3, "RET") := by
+      rw [hc]; exact h3
+    obtain ⟨⟨w, hw'⟩, hge⟩ := Indep3.runTask_grow fuel (feedR c₁ y.wire (pre' ++ .err :: post)) n0 none
+    rw [hrun3] at hw' hge
+    simp only at hw' hge
+    rw [hlog0] at hw'
+    rw [hhs0] at hge
+    have hpre2 := hhit.rel.log
+    rw [hw', hw2.log] at hpre2
+    obtain ⟨e, inH, he, hlast⟩ := hhit.err
+    have he' : e = .connectionAborted ∨ e = .transportRead := by
+      rcases he with ⟨_, h2⟩ | ⟨⟨_, h⟩, _⟩ | ⟨⟨_, h⟩, _⟩ | ⟨⟨_, h⟩, _⟩
+      · exact h2
+      · cases h
+      · cases h
+      · cases h
+    have hhs := hhit.rel.hs
+    rw [hw2.hs] at hhs
+    exact ⟨c3, "RET", Ay, hrun3, hsegy, Or.inr ⟨rfl, hhit.ph,
+      ⟨w, hw', (List.prefix_append_right_inj _).1 hpre2⟩, hge, hhs, ⟨e, inH, he', hlast⟩⟩⟩
+
+/-- **C12 end to end: an erroring read answer in the last request of a chain — the WHOLE run on the read script that has
+the error from the start.** -/
+theorem read_error_in_last_request_at_index_e2e_whole {b mc : Nat} (x : UReq) (xs : List UReq) (y : UReq) {t : Transport}
+    {fuel : Nat} (pre post : List RdAns) (hrd : t.rd = pre ++ .err :: post)
+    (hok : ∀ z ∈ x :: xs, z.OKu b) (hoky : y.OKu b) (hleft : ((x :: xs).getLast (by simp)).left = [])
+    (hin : t.input = x.wire) (hben : Ben { t with rd := pre }) (hem : t.endMode = .pend) (hev : hsCount t.events = 0)
+    (hfuel : pre.length + t.wr.length + 1 ≤ fuel) :
+    ∃ c₁ A n,
+      closedLoop fuel (xs.map UReq.wire) (connS b mc { t with rd := pre } ((x :: xs).map UReq.handler ++ [y.handler])) 0 =
+        (c₁, "STALL") ∧
+      SegsAll mc (x :: xs) A ∧ c₁.env.tr.rd = pre.drop n ∧ n + c₁.env.tr.rd.length = pre.length ∧
+      (c₁.env.tr.rd ≠ [] →
+        ∃ c' fin Ay,
+          closedLoop fuel (xs.map UReq.wire ++ [y.wire]) (connS b mc t ((x :: xs).map UReq.handler ++ [y.handler])) 0 =
+            (c', fin) ∧
+          y.Seg mc Ay ∧
+          ((fin = "STALL" ∧ c'.env.tr.wlog = t.wlog ++ A ++ Ay ∧ hsCount c'.env.tr.events = (x :: xs).length + 1 ∧
+              ∃ rest, c'.env.tr.rd = rest ++ .err :: post) ∨
+           (fin = "RET" ∧ c'.phase = .finished ∧
+            (∃ w, c'.env.tr.wlog = t.wlog ++ A ++ w ∧ w <+: Ay) ∧
+            (x :: xs).length ≤ hsCount c'.env.tr.events ∧ hsCount c'.env.tr.events ≤ (x :: xs).length + 1 ∧
+            (∃ e inH, (e = .connectionAborted ∨ e = .transportRead) ∧
+              (inH = true → ∃ evs, c'.env.tr.events = evs ++ [handlerErrEv e]))))) := by
+  obtain ⟨c₁, A, hrun, hseg, hw, _, _, ⟨n, hn1, hn2⟩⟩ :=
+    chain_prefix_s (mc := mc) (t := { t with rd := pre }) x xs [y.handler] hok hleft hin hben hem hev hfuel
+  refine ⟨c₁, A, n, hrun, hseg, hn1, hn2, fun hrem => ?_⟩
+  have ht : t = appR (.err :: post) { t with rd := pre } := by
+    obtain ⟨input, endMode, rd, wr, fl, wlog, events, hold, woken, readWaker, abortKind⟩ := t
+    simp only at hrd
+    subst hrd
+    simp [ext]
+  have hc : connS b mc t ((x :: xs).map UReq.handler ++ [y.handler]) =
+      appCR (.err :: post) (connS b mc { t with rd := pre } ((x :: xs).map UReq.handler ++ [y.handler])) := by
+    conv => lhs; rw [ht]
+    rfl
+  have hpre := closedLoop_appR (.err :: post) fuel (xs.map UReq.wire)
+    (connS b mc { t with rd := pre } ((x :: xs).map UReq.handler ++ [y.handler])) 0 (by rw [hrun]; exact hrem)
+  rw [hrun] at hpre
+  simp only at hpre
+  have hans := hw.ans
+  obtain ⟨c', fin, Ay, hleg, hsy, hcase⟩ := read_error_leg (mc := mc) y (fuel := fuel)
+    (0 + 1000 * ((xs.map UReq.wire).length + 1)) c₁.env.tr.rd post hoky hw hw.ben.rd (by
+      unfold ans at hans
+      have : ({ t with rd := pre } : Transport).rd.length + ({ t with rd := pre } : Transport).wr.length = pre.length + t.wr.length := rfl
+      omega)
+  have hfeed : E2E.feed (appCR (.err :: post) c₁) y.wire = feedR c₁ y.wire (c₁.env.tr.rd ++ .err :: post) := by
+    rw [feedR_ext, setRd_self]; rfl
+  refine ⟨c', fin, Ay, ?_, hsy, ?_⟩
+  · rw [closedLoop_snoc, hc, hpre]
+    simp only [if_true]
+    rw [hfeed]
+    exact hleg
+  · have hlog : c₁.env.tr.wlog = t.wlog ++ A := hw.log
+    rcases hcase with ⟨h1, h2, h3, h4⟩ | ⟨h1, h2, h3, h4, h5, h6⟩
+    · exact Or.inl ⟨h1, h2, h3, h4⟩
+    · exact Or.inr ⟨h1, h2, h3, h4, h5, h6⟩
+
+
+/-! ## Non-vacuity: `ExampleChain2` with the fault in the script from the start -/
+namespace ExampleChain3
+open Fcgi.C01.Example Fcgi.C07E.Example ExampleChain ExampleChain2
+
+/-- the benign part of the write script: 11 answers (replay `c12chain2-k1-err-at-2nd-write-of-2nd-request`: the first
+request consumes 10 of them, so `hrem` holds and the failing answer is the 2nd own write answer of the second
+request) -/
+def preW : List WrAns := [.n 5, .pending, .all, .n 1, .pending, .n 7, .n 9, .all, .all, .all, .all]
+/-- `exT2` with the write script `preW ++ [.err]`: the failing answer is in the script FROM THE START -/
+def exT4 : Transport := { exT2 with wr := preW ++ [.err] }
+
+/-- `q1` answered, then `q1` again, ONE closed-loop run on the faulty script: all hypotheses of
+`write_error_in_last_request_e2e_whole` hold; if the benign prefix leaves an answer of `preW`, the whole run ends
+parked with both requests answered, or returned with at most 2 handler starts and a prefix of the second answer -/
+example : ∃ c₁ n, closedLoop 20 [] (connS 64 10 { exT4 with wr := preW }
+      ([UReq.full q1].map UReq.handler ++ [(UReq.full q1).handler])) 0 = (c₁, "STALL") ∧
+    c₁.env.tr.wr = preW.drop n ∧
+    (c₁.env.tr.wr ≠ [] →
+      ∃ c' fin, closedLoop 20 [q1.wire] (connS 64 10 exT4
+          ([UReq.full q1].map UReq.handler ++ [(UReq.full q1).handler])) 0 = (c', fin) ∧
+        hsCount c'.env.tr.events ≤ 2 ∧ (fin = "STALL" ∨ (fin = "RET" ∧ c'.phase = .finished))) := by
+  obtain ⟨c₁, A, n, h1, _, h3, _, hw⟩ :=
+    write_error_in_last_request_e2e_whole (b := 64) (mc := 10) (.full q1) [] (.full q1) (t := exT4) (fuel := 20)
+      preW [] .err (Or.inl rfl) rfl
+      (fun y hy => by rw [List.mem_singleton.1 hy]; exact ⟨q1_oku _, by decide⟩) ⟨q1_oku _, by decide⟩
+      rfl rfl ⟨by decide, by decide, rfl, by decide⟩ rfl rfl (by decide)
+  refine ⟨c₁, n, h1, h3, fun hrem => ?_⟩
+  obtain ⟨c', fin, Ay, hrun, _, hcase⟩ := hw hrem
+  refine ⟨c', fin, hrun, ?_, ?_⟩
+  · rcases hcase with ⟨_, _, h, _⟩ | ⟨_, _, _, _, h, _⟩
+    · rw [h]; decide
+    · exact h
+  · rcases hcase with ⟨h, _⟩ | ⟨h, hph, _⟩
+    · exact Or.inl h
+    · exact Or.inr ⟨h, hph⟩
+end ExampleChain3
 
 end Fcgi.C12E
